@@ -172,13 +172,52 @@ func genLarge(r *core.Rand, tier string) core.Case {
 		sim.init(0, vs)
 		// the Seq is made first and ranged over later (again and again), between the other ops
 		hasSeq := r.Chance(60)
+		curs := &genCursors{}
 		if hasSeq {
 			lines = append(lines, "seq")
 			nops++
+			if r.Chance(55) {
+				// iter.Pull cursors over the big heap (two of them alternate)
+				for j := r.Range(1, 2); j > 0; j-- {
+					lines = append(lines, "pull 0")
+					curs.add(0)
+					nops++
+				}
+				nops += 2
+			}
+		}
+		nextW := 0
+		if len(curs.slot) > 0 {
+			nextW = 30
 		}
 		for len(lines) <= nops {
 			m := len(sim.arr[0])
-			switch pickOp(nops+1-len(lines), 30, 12, 12, 14, 10, 4, 6, 3, 4, 5) {
+			switch pickOp(nops+1-len(lines), 30, 12, 12, 14, 10, 4, 6, 3, 4, 5, 22, nextW) {
+			case 10:
+				// the loop body uses the heap; a drain (k = 0) is rationed like popall
+				k := 0
+				if drains <= 0 || (len(lines)+2 <= nops && r.Chance(75)) {
+					k = stop(0)
+				} else {
+					drains--
+				}
+				lines = append(lines, genSliceBody(r, sim, k, cn, func() int { return fresh(len(sim.vals)) }, func() int { return len(sim.vals) % 1000 }))
+			case 11:
+				cu := curs.pick(r)
+				if r.Chance(8) {
+					lines = append(lines, fmt.Sprintf("stop %d", cu))
+					curs.done[cu] = true
+					break
+				}
+				lines = append(lines, fmt.Sprintf("next %d", cu))
+				curs.last = cu
+				if !curs.done[cu] {
+					if len(sim.arr[0]) == 0 {
+						curs.done[cu] = true
+					} else {
+						sim.pop(0, 'p')
+					}
+				}
 			case 0:
 				k := stop(0)
 				if hasSeq && r.Chance(65) {
@@ -304,6 +343,24 @@ func genLarge(r *core.Rand, tier string) core.Case {
 			return -1
 		}
 		reinit := len(seqs) > 0 && n <= 300 && r.Chance(35) // one Init of A with another comparator while the Seq is held
+		curs := &genCursors{}
+		if len(seqs) > 0 && r.Chance(55) {
+			// iter.Pull cursors over the big heap (two alternate; sometimes one over B's Seq)
+			for j := r.Range(1, 2); j > 0; j-- {
+				sl := 0
+				if len(seqs) > 1 && r.Chance(30) {
+					sl = 1
+				}
+				lines = append(lines, fmt.Sprintf("pull %d", sl))
+				curs.add(sl)
+			}
+			nops += 2
+		}
+		nextW := 0
+		if len(curs.slot) > 0 {
+			nextW = 30
+		}
+		cnow := [2]string{cn, cn} // the comparator each heap has
 		nops += len(lines) - 1
 		for len(lines) <= nops {
 			if reinit && len(lines)+2 <= nops && r.Chance(30) {
@@ -316,6 +373,7 @@ func genLarge(r *core.Rand, tier string) core.Case {
 				}
 				lines = append(lines, "initc A "+c2+joinInts(ws))
 				sim.cmps[0] = cmpOf(c2)
+				cnow[0] = c2
 				sim.init(0, ws)
 				// the Seq made before the Init enumerates the new content in the new order
 				s := largeStop(r, m2, true, false)
@@ -338,7 +396,32 @@ func genLarge(r *core.Rand, tier string) core.Case {
 				}
 				return sim.pick(r, k)
 			}
-			switch pickOp(nops+1-len(lines), 30, 12, 12, 14, 10, 4, 6, 3, 4, 5, 6, 5) {
+			switch pickOp(nops+1-len(lines), 30, 12, 12, 14, 10, 4, 6, 3, 4, 5, 6, 5, 22, nextW) {
+			case 12:
+				// the loop body uses the heaps; a drain (k = 0) is rationed like popall
+				s := 0
+				if drains <= 0 || (len(lines)+2 <= nops && r.Chance(75)) {
+					s = stop(k)
+				} else {
+					drains--
+				}
+				lines = append(lines, genHeapBody(r, sim, k, s, cnow, fresh, false))
+			case 13:
+				cu := curs.pick(r)
+				if r.Chance(8) {
+					lines = append(lines, fmt.Sprintf("stop %d", cu))
+					curs.done[cu] = true
+					break
+				}
+				lines = append(lines, fmt.Sprintf("next %d", cu))
+				curs.last = cu
+				if hk := seqs[curs.slot[cu]]; !curs.done[cu] {
+					if len(sim.arr[hk]) == 0 {
+						curs.done[cu] = true
+					} else {
+						sim.pop(hk, 'a')
+					}
+				}
 			case 11:
 				// Remove / Fix on a struct copy of the heap
 				e := handle()
